@@ -678,3 +678,174 @@ def run_binner_hist(st):
         if ev["out"] != "ret":
             break
     return {"mgr": st["mgr"], "ns": ns, "ops": evs}
+
+
+# ------------------------------------------------------------------ C11: anytime algorithms under a counting clock
+class CountingClock:
+    """Deterministic clock: the n-th reading returns n (0, 1, 2, ...).  Installed as the `time` attribute of the algorithm modules,
+    which call time.perf_counter() through that attribute (no source change)."""
+    def __init__(self):
+        self.n = -1
+
+    def perf_counter(self):
+        self.n += 1
+        return float(self.n)
+
+
+def _pst_ids(bins):
+    """normalise a (sums, lists) bins-array whose items are ids"""
+    if bins is None:
+        return {"out": "none", "lists": [], "sums": [], "lists_end": []}
+    try:
+        sums, lists = bins
+        ss = [exact_int(x) for x in sums]
+        if any(x is None for x in ss):
+            # CBLDM's documented no-solution placeholder ([0, inf], [0, inf])
+            if len(sums) == 2 and sums[0] == 0 and sums[1] == np.inf:
+                return {"out": "none", "lists": [], "sums": [], "lists_end": []}
+            return {"out": "bad", "lists": [], "sums": [], "lists_end": []}
+        ll = [[int(i) for i in b] for b in lists]
+        return {"out": "ret", "lists": ll, "sums": ss, "lists_end": ll}
+    except Exception:
+        return {"out": "bad", "lists": [], "sums": [], "lists_end": []}
+
+
+def run_anytime(st):
+    """st: {alg in cg|cbldm|ckkgen, vals, k, o, sw, d}: the result for every cut point c = 1..R (limit fires at the c-th reading) and the unlimited run"""
+    vals, k = st["vals"], st["k"]
+    ids = list(range(1, len(vals) + 1))
+    valueof = lambda i: vals[i - 1]
+    alg = st["alg"]
+    t = {"alg": alg, "vals": vals, "k": k, "o": st.get("o", "diff"), "d": st.get("d", len(vals)), "cfg": st.get("swc", ""), "cuts": []}
+    import time as _real_time
+
+    def one(limit):
+        clock = CountingClock()
+        mods = (_cg_mod, _cbldm_mod)
+        saved = [m.time for m in mods]
+        for m in mods:
+            m.time = clock
+        try:
+            signal.alarm(20)
+            try:
+                B = prtpy.BinnerKeepingContents(valueof)
+                if alg == "cg":
+                    sw = st["sw"]
+                    ret = _cg_mod.anytime(B, k, ids, objective=objective(st["o"]), use_lower_bound=sw["lb"], use_fast_lower_bound=sw["flb"],
+                                          use_heuristic_3=sw["h3"], use_set_of_seen_states=sw["seen"], time_limit=limit)
+                else:
+                    kw = {} if st.get("d_default") else {"partition_difference": st["d"]}
+                    ret = _cbldm_mod.cbldm(B, 2, ids, time_limit=limit, **kw)
+            finally:
+                signal.alarm(0)
+            r = _pst_ids(ret)
+        except Watchdog:
+            r = {"out": "timeout", "lists": [], "sums": [], "lists_end": []}
+        except Exception as e:
+            r = {"out": outcome_of_exception(e), "lists": [], "sums": [], "lists_end": []}
+        finally:
+            for m, s in zip(mods, saved):
+                m.time = s
+        return r, clock.n
+
+    if alg in ("cg", "cbldm"):
+        final, readings = one(np.inf)
+        R = readings            # readings 1..R are the limit tests (reading 0 is the start time)
+        t["R"] = R
+        for c in range(1, R + 1):
+            r, _ = one(c - 0.5)
+            t["cuts"].append(r)
+        t["cuts"].append(final)
+    else:   # the CKK generator: every yield, snapshotted at yield time and looked at again at the end
+        B = prtpy.BinnerKeepingContents(valueof)
+        ys = []
+        try:
+            signal.alarm(20)
+            try:
+                for y in _ckk_mod.generator(B, k, ids):
+                    ys.append((y, _pst_ids((np.array(y[0]), [list(b) for b in y[1]]))))
+            finally:
+                signal.alarm(0)
+            for y, snap in ys:
+                end = _pst_ids(y)
+                snap["lists_end"] = end["lists"] if end["out"] == "ret" else [[-1]]
+                t["cuts"].append(snap)
+            if not ys:
+                t["cuts"].append({"out": "none", "lists": [], "sums": [], "lists_end": []})
+        except Watchdog:
+            t["cuts"] = [{"out": "timeout", "lists": [], "sums": [], "lists_end": []}]
+        except Exception as e:
+            t["cuts"].append({"out": outcome_of_exception(e), "lists": [], "sums": [], "lists_end": []})
+        t["R"] = len(ys)
+    return t
+
+
+# ------------------------------------------------------------------ C17: ILP options
+def run_ilp(st):
+    """st: {vals, k, o, kp, copies: [..], copies_scalar: bool, w: [..] or None, cons, c, inject} -> one-call trace"""
+    vals, k = st["vals"], st["k"]
+    items, valueof, back = present(vals, "dict")
+    names = list(items.keys())
+    t = dict(st)
+    t["wgiven"] = 1 if st.get("w") else 0
+    t["w"] = list(st["w"]) if st.get("w") else [1] * k
+    t["inject"] = st.get("inject") or ""
+    kw = {"objective": objective(st["o"], st.get("kp", 0))}
+    cp = st["copies"]
+    if st.get("copies_scalar"):
+        kw["copies"] = cp[0]
+    else:
+        kw["copies"] = {i: cp[i] for i in range(len(cp))}       # the code indexes copies by item position
+    if st.get("w"):
+        kw["weights"] = list(st["w"])
+    c = st.get("c", 0)
+    cons = st.get("cons", "none")
+    if cons == "smallest_eq":
+        kw["additional_constraints"] = lambda sums: [sums[0] == c]
+    elif cons == "largest_le":
+        kw["additional_constraints"] = lambda sums: [sums[-1] <= c]
+    elif cons == "smallest_ge":
+        kw["additional_constraints"] = lambda sums: [sums[0] >= c]
+    MIP_CTL["nopre"] = bool(st.get("nopre"))
+    MIP_CTL["inject"] = st.get("inject") or None
+    try:
+        signal.alarm(60)
+        try:
+            ret = prtpy.partition(algorithm=prt.ilp, numbins=k, items=items, outputtype=out.PartitionAndSumsTuple, **kw)
+        finally:
+            signal.alarm(0)
+        t.update(norm_pst(ret, vals, back))
+    except Watchdog:
+        t.update(empty_result("timeout"))
+    except Exception as e:
+        t.update(empty_result(outcome_of_exception(e)))
+    finally:
+        MIP_CTL["inject"] = None
+        MIP_CTL["nopre"] = False
+    t["solver"] = (MIP_CTL.get("last") or {}).get("status", "")
+    for kdel in ("copies_scalar", "nopre"):
+        t.pop(kdel, None)
+    return t
+
+
+# ------------------------------------------------------------------ C18: metamorphic groups
+EXACT = {"dp", "ilp", "cg", "ckk", "snp", "rnp", "cbldm", "bc"}
+SORTING = {"greedy", "roundrobin", "multifit", "kk", "ffd", "bfd", "dec", "tt", "tq"}
+
+
+def run_meta_group(g):
+    """g: {events: [{var, f, kind: part|pack, vals, k|C, alg, o, kp, sw, d, it}]} -> same with results (sums only)"""
+    evs = []
+    for e in g["events"]:
+        st = dict(e)
+        st.setdefault("fmt", "list")
+        if e["kind"] == "part":
+            r = run_part(st, g.get("watchdog", 20))
+        else:
+            st.setdefault("extra", False)
+            r = run_pack(st, g.get("watchdog", 20))
+        alg = e["alg"]
+        evs.append({"var": e["var"], "f": e.get("f", 1), "alg": alg, "cls": "exact" if alg in EXACT else ("sort" if alg in SORTING else "online"),
+                    "cfg": e.get("swc", "") + ":" + str(e.get("it", "")) + ":" + str(e.get("d", "")), "o": e.get("o", "diff") if e["kind"] == "part" else "maxsum",
+                    "kp": e.get("kp", 0), "out": r["out"], "sums": r.get("sums", []), "exact": r.get("exact", True), "n": len(e["vals"])})
+    return {"base": g["base"], "events": evs}
